@@ -20,6 +20,9 @@ SHAPES = [
     "@[{ID} @[1 @{{:k :v}}] @\"buf\"]", "@{{:id {ID} :arr @[1 2 3]}}", "(int/s64 \"{ID}\")", "(int/u64 \"18446744073709551615\")",
     "(let [sh @[{ID}]] [sh sh])", "(string/repeat \"x\" (+ 100 (% {ID} 1000)))", "1e300", "-0.5", "127", "128", "-129", "8191", "8192",
     "2147483647", "2147483648", "9007199254740992", "(fn [] {ID})", "(buffer/new-filled 300 (% {ID} 256))",
+    # shared abstracts the receiving thread already holds, in the middle of a message whose later parts repeat
+    # earlier ones (back-references are numbered across the whole message, abstracts included)
+    "[(chans 0) \"a\" \"b\" \"c\" \"b\" {ID}]", "(let [s (string \"q\" {ID})] [L s [s s] (chans 0) s RW [s :k :k]])",
 ]
 
 
@@ -133,6 +136,10 @@ class C08(Driver):
             # every stale entry then belongs to the main thread, whose VM outlives the run: nothing dangles, and the
             # re-dispatch of messages that reach a stale entry has to conserve them
             plan["strict"] = 1
+            if r.random() < 0.3:
+                # collections at seeded safepoints in every thread: a task parked on a thread channel is kept alive
+                # only by the root its pending entry took
+                knobs["gc"] = "bern %s" % r.choice([0.01, 0.05])
         if burst:
             plan["burst"] = burst
         return plan
@@ -149,7 +156,8 @@ class C08(Driver):
                                                              .replace('"s-id"', '(string "s-" id)').replace('"nul\\0byte-id"', '(string "nul\\0byte-" id)')
                                                              .replace(":kw-id", '(keyword "kw-" id)').replace('(int/s64 "id")', "(int/s64 (string id))"))
                                                   for i, s in enumerate(SHAPES)))
-        A("(defn show [v] (cond (function? v) [:fn (v)] (= (type v) :core/channel) :lent-channel (sim/canon v)))")
+        A("(defn unabs [v] (cond (= (type v) :core/channel) [:chan (cid v)] (= (type v) :core/lock) :a-lock (= (type v) :core/rwlock) :a-rwlock (tuple? v) (tuple/slice (map unabs v)) v))")
+        A("(defn show [v] (cond (function? v) [:fn (v)] (= (type v) :core/channel) :lent-channel (sim/canon (unabs v))))")
         A("(defn borrow [v] (when (= (type v) :core/channel) (ev/give v :echo)) nil)")
         A("(defn after-borrow [] (gccollect) (gccollect))")
         # what a plain take hands out must be the [id payload] pair that was given, nothing else
